@@ -36,7 +36,7 @@ func (s *State) evalAssignment(right object.Object, node *ast.InfixExpression) o
 		if !ok {
 			return s.Errorf("assignment to non index [] expression %T %v", node.Left, ast.DebugString(node.Left))
 		}
-		index := s.Eval(idxE.Index)
+		index := object.CopyRegister(s.Eval(idxE.Index)) // a map key is the current value, not the (live) register.
 		return s.evalIndexAssigment(idxE.Left, index, right)
 	case token.IDENT:
 		id := node.Left.(*ast.Identifier)
